@@ -6,7 +6,7 @@
 (* with the real caches.  GenNext only restricts the ORDER of SessionCache's*)
 (* actions, so every generated behaviour is a behaviour of SessionCache.    *)
 (*                                                                          *)
-(*  mode "C06": life-cycle steps (Establish, Tick, Renew, SrvInvalidate,    *)
+(*  mode "C06": life-cycle steps (Establish, Import, Tick, Renew, SrvInvalidate,    *)
 (*     SrvSweep, legitimate Resume) up to LifeDepth, then ONE attacking     *)
 (*     connection (any Resume variant, any Replay) which ends the behaviour.*)
 (*  mode "C06walk": the attack only after exactly LifeDepth life-cycle steps *)
